@@ -80,6 +80,7 @@ end P
 structure Run (G : Type) where
   g : G
   thr : List (Nat × Prog G) := []
+  saved : List (Nat × Prog G) := []   -- continuations of frames interrupted by a synthetic signal (LIFO per thread)
   cov : List (String × Nat) := []
 
 def Run.getT {G} (r : Run G) (t : Nat) : Option (Prog G) := (r.thr.find? (·.1 == t)).map (·.2)
@@ -103,5 +104,28 @@ def feed {G} (fresh : Nat → G → Prog G) (r : Run G) (e : Ev) : Except String
     pure ({ r with g := g3 }.setT e.tid p3)
   | .done => .error s!"thread T{e.tid} emitted an event after its program ended"
   | .tau _ => .error "internal: unsettled"
+
+/-- `SIG_ENTER` on thread `t`: suspend its current program and run `handler` instead;
+`SIG_EXIT` (consumed by the handler program, which then ends) resumes it. -/
+def sigEnter {G} (fresh : Nat → G → Prog G) (handler : Prog G) (r : Run G) (t : Nat) : Except String (Run G) := do
+  let p := (r.getT t).getD (fresh t r.g)
+  let (g1, p1) ← settle 10000 r.g p
+  let (g2, h2) ← settle 10000 g1 handler
+  pure ({ r with g := g2, saved := (t, p1) :: r.saved }.setT t h2)
+
+def isDone {G} : Prog G → Bool
+  | .done => true
+  | _ => false
+
+/-- after an event: if the thread's (handler) program has ended and a suspended frame exists, resume it -/
+def sigResume {G} (r : Run G) (t : Nat) : Run G :=
+  match r.getT t with
+  | some p =>
+    if isDone p then
+      match r.saved.find? (·.1 == t) with
+      | some (_, q) => { r with saved := r.saved.eraseP (·.1 == t) }.setT t q
+      | none => r
+    else r
+  | none => r
 
 end Driver
